@@ -30,6 +30,37 @@ def _mk_object(kind, n, m):
     return ws, obj, vd, cd
 
 
+def _add_extras(obj, n, m, with_cells):
+    """children of the other data kinds (concrete, pairwise distinct values so that any shift is visible)"""
+    ex = []
+    ex.append(("VERTEX", obj.add_data({"tv": {"values": real_np.array([f"v\u00e9rt{i}" for i in range(n)]), "type": "text",
+                                              "association": "VERTEX"}})))
+    ex.append(("VERTEX", obj.add_data({"iv": {"values": (real_np.arange(n) * 7 + 100).astype("int32"), "type": "integer",
+                                              "association": "VERTEX"}})))
+    if with_cells and m:
+        ex.append(("CELL", obj.add_data({"tc": {"values": real_np.array([f"cell{i}" for i in range(m)]), "type": "text",
+                                                "association": "CELL"}})))
+        ex.append(("CELL", obj.add_data({"bc": {"values": (real_np.arange(m) % 2 == 0), "type": "boolean",
+                                                "association": "CELL"}})))
+    return [(assoc, d, [x.item() if hasattr(x, "item") else x for x in list(d.values)]) for assoc, d in ex]
+
+
+def _check_extras(cx, extras, assoc, n_new, cond):
+    """cond(j, p): old element j is new element p.  Every child of every kind keeps one entry per element and its value."""
+    for a, d, old in extras:
+        if a != assoc:
+            continue
+        new = elems(d.values)
+        cx.prove(len(new) == n_new, f"{d.name} ({type(d).__name__}) has one entry per {assoc.lower()}", "other data kinds stay aligned")
+        if len(new) != n_new:
+            continue
+        for j in range(len(old)):
+            for p in range(n_new):
+                same = new[p] == old[j] or (isinstance(new[p], bytes) and new[p].decode() == old[j])
+                if not same:
+                    cx.prove(Not(cond(j, p)), f"{d.name}: element {j}->{p} keeps its value", "other data kinds stay aligned")
+
+
 def _sym_geometry(cx, X, obj, vd, cd, kind, n, m):
     w = {"points": 0, "curve": 2, "surface": 3}[kind]
     V = [[cx.real(f"v{i}{a}") for a in "xyz"] for i in range(n)]
@@ -66,6 +97,9 @@ class RemoveVertices(Scenario):
     def body(self, cx):
         kind, n, m, k = (self.params[x] for x in ("kind", "n", "m", "k"))
         ws, obj, vd, cd = _mk_object(kind, n, m)
+        extras = _add_extras(obj, n, m, kind != "points") if self.params.get("extras", True) else []
+        for _, d_, _o in extras:
+            d_.on_file = False
         with self.engine(cx) as X:
             V, C, D, CD, w = _sym_geometry(cx, X, obj, vd, cd, kind, n, m)
             I = [cx.int(f"i{t}", 0, n) for t in range(k)]
@@ -95,6 +129,7 @@ class RemoveVertices(Scenario):
                     cond = And(Not(removed[j]), eq(below[j], j - p))
                     cx.prove(Implies(cond, And([eq(ve[p * 3 + a], V[j][a]) for a in range(3)] + [eq(de[p], D[j])])),
                              f"survivor {j}->{p} keeps coordinates and value", "survivors keep coordinates and value")
+            _check_extras(cx, extras, "VERTEX", nv2, lambda j, p: And(Not(removed[j]), eq(below[j], j - p)))
             if w:
                 cells = obj.cells
                 nc2 = shape(cells)[0]
@@ -104,6 +139,7 @@ class RemoveVertices(Scenario):
                 cx.prove(And([And(c >= 0, c < nv2) for c in ce]), "cells reference existing vertices", "cells in range")
                 gone = [Sum([Not(s) for s in surv[:c]]) for c in range(m)]
                 cde = elems(cd.values) if cd is not None else None
+                _check_extras(cx, extras, "CELL", nc2, lambda c_, r_: And(surv[c_], eq(gone[c_], c_ - r_)))
                 if cd is not None:
                     cx.prove(shape(cd.values)[0] == nc2, "cell data has one entry per cell", "counts")
                 for c in range(m):
@@ -133,6 +169,9 @@ class RemoveCells(Scenario):
     def body(self, cx):
         kind, n, m, k = (self.params[x] for x in ("kind", "n", "m", "k"))
         ws, obj, vd, cd = _mk_object(kind, n, m)
+        extras = _add_extras(obj, n, m, True)
+        for _, d_, _o in extras:
+            d_.on_file = False
         with self.engine(cx) as X:
             V, C, D, CD, w = _sym_geometry(cx, X, obj, vd, cd, kind, n, m)
             I = [cx.int(f"i{t}", 0, m) for t in range(k)]
@@ -155,6 +194,8 @@ class RemoveCells(Scenario):
                          + [eq(x, y) for x, y in zip(elems(vd.values), D)]), "vertices / vertex data unchanged",
                      "frame")
             below = [Sum(removed[:j]) for j in range(m)]
+            _check_extras(cx, extras, "CELL", nc2, lambda c_, r_: And(Not(removed[c_]), eq(below[c_], c_ - r_)))
+            _check_extras(cx, extras, "VERTEX", n, lambda j, p: j == p)
             for c in range(m):
                 for r in range(nc2):
                     cond = And(Not(removed[c]), eq(below[c], c - r))
@@ -261,6 +302,72 @@ class RemoveAndReopen(Scenario):
             return "ok"
 
 
+class MaskedCopy(Scenario):
+    """masked copies: obj.copy(mask=...) keeps exactly the masked vertices (cells whose vertices all survive) with their
+    data; data.copy(parent=<same-size object>, mask=...) keeps masked entries on their positions and blanks the others"""
+    pid = "C07"
+
+    def body(self, cx):
+        from geoh5py.objects import Points
+        kind, n, m = (self.params[x] for x in ("kind", "n", "m"))
+        ws, obj, vd, cd = _mk_object(kind, n, m)
+        twin = Points.create(ws, vertices=real_np.zeros((n, 3)), name="twin") if kind == "points" else None
+        if twin is not None:
+            twin.on_file = False
+        with self.engine(cx) as X:
+            V, C, D, CD, w = _sym_geometry(cx, X, obj, vd, cd, kind, n, m)
+            M = [cx.bool(f"m{i}") for i in range(n)]
+            mask = mk_array(X, M, (n,), "bool")
+            new = obj.copy(mask=mask)
+            nv2 = shape(new.vertices)[0]
+            ve = elems(new.vertices)
+            cx.prove(eq(nv2, Sum(M)), "masked copy has exactly the masked vertices", "masked copy")
+            nd_ = [c for c in new.children if getattr(c, "name", None) == "vd"]
+            cx.prove(len(nd_) == 1 and shape(nd_[0].values) == (nv2,), "copied vertex data: one entry per vertex", "masked copy")
+            below = [Sum(M[:j]) for j in range(n)]
+            nde = elems(nd_[0].values) if len(nd_) == 1 else None
+            for j in range(n):
+                for p in range(nv2):
+                    cond = And(M[j], eq(below[j], p))
+                    same = [eq(ve[p * 3 + a], V[j][a]) for a in range(3)]
+                    if nde is not None and len(nde) == nv2:
+                        same.append(eq(nde[p], D[j]))
+                    cx.prove(Implies(cond, And(same)), f"masked vertex {j}->{p} keeps coordinates and value", "masked copy")
+            if w:
+                ce = elems(new.cells)
+                nc2 = shape(new.cells)[0]
+                keep = [And([select(M, C[c][a]) for a in range(w)]) for c in range(m)]
+                cx.prove(eq(nc2, Sum(keep)) and And([And(c_ >= 0, c_ < nv2) for c_ in ce]),
+                         "masked copy keeps the cells whose vertices all survive, re-indexed in range", "masked copy")
+                ncd = [c for c in new.children if getattr(c, "name", None) == "cd"]
+                ncde = elems(ncd[0].values) if (cd is not None and len(ncd) == 1) else None
+                cb = [Sum(keep[:c]) for c in range(m)]
+                for c in range(m):
+                    for r in range(nc2):
+                        cond = And(keep[c], eq(cb[c], r))
+                        same = []
+                        for a in range(w):
+                            for ax in range(3):
+                                same.append(eq(select([ve[q * 3 + ax] for q in range(nv2)], ce[r * w + a]),
+                                               select([V[q][ax] for q in range(n)], C[c][a])))
+                        if ncde is not None and len(ncde) == nc2:
+                            same.append(eq(ncde[r], CD[c]))
+                        cx.prove(Implies(cond, And(same)), f"cell {c}->{r} connects the same coordinates, keeps value", "masked copy")
+            if twin is not None:
+                cp = vd.copy(parent=twin, mask=mask)
+                cv = elems(cp.values)
+                cx.prove(len(cv) == n, "data copied onto a same-size object has one entry per vertex", "masked data copy")
+                if len(cv) == n:
+                    for i in range(n):
+                        if is_nan(cv[i]):
+                            cx.prove(Not(M[i]), f"entry {i} blanked only when masked out", "masked data copy")
+                        else:
+                            cx.prove(And(M[i], eq(cv[i], D[i])), f"entry {i} stays on its vertex iff masked in", "masked data copy")
+            cx.prove(And([eq(a, b) for a, b in zip(elems(obj.vertices), [x for r in V for x in r])])
+                     and And([eq(a, b) for a, b in zip(elems(vd.values), D)]), "source unchanged", "masked copy")
+            return "ok"
+
+
 class AssignValues(Scenario):
     """data.values = array of length L on an object with n vertices: pad / accept / refuse"""
     pid = "C07"
@@ -325,6 +432,7 @@ def scenarios(tier, seed):
         for L in (0, 2, 3, 4):
             S.append(AssignValues(kind="points", n=3, L=L, dkind="float"))
             S.append(AssignValues(kind="points", n=3, L=L, dkind="int"))
+        S += [MaskedCopy(kind="points", n=3, m=0), MaskedCopy(kind="curve", n=3, m=2)]
         S += [RemoveAndReopen(kind="curve", n=4, m=3, k=1, op="cells", clear_cache=True),
               RemoveAndReopen(kind="curve", n=4, m=3, k=1, op="cells"), RemoveAndReopen(kind="curve", n=4, m=3, k=1, op="vertices"),
               RemoveAndReopen(kind="surface", n=4, m=2, k=1, op="cells"), RemoveAndReopen(kind="points", n=3, m=0, k=2, op="vertices")]
@@ -346,6 +454,7 @@ def scenarios(tier, seed):
             for L in range(0, n + 2):
                 S.append(AssignValues(kind="points", n=n, L=L, dkind="float"))
                 S.append(AssignValues(kind="points", n=n, L=L, dkind="int"))
+        S += [MaskedCopy(kind="points", n=4, m=0), MaskedCopy(kind="curve", n=4, m=3), MaskedCopy(kind="surface", n=4, m=2)]
         for kind, n, m in (("curve", 4, 3), ("surface", 4, 3), ("points", 4, 0)):
             for op in (("vertices", "cells") if m else ("vertices",)):
                 for k in (1, 2):
@@ -369,8 +478,8 @@ def main(tier, seed):
             "array shapes (n vertices, m cells, k removal indices, L values) are concrete per scenario",
         ],
         outside=["drillhole sort_depths", "shapes larger than the listed ones",
-                 "masked copies are checked under C13"],
+                 "extent-driven copies are checked under C13"],
         bounds={"quick": "n<=4 vertices, m<=3 cells, k<=2 removal indices (any order, repeats allowed); value arrays L in 0..n+1, n=3",
                 "thorough": "n<=5, m<=4, k<=3; value arrays n in {1,3,4}"}[tier],
-        expected_outcomes={"RemoveVertices": {"ok"}, "RemoveCells": {"ok"}, "AssignValues": {"ok"}, "RemoveAndReopen": {"ok"}},
+        expected_outcomes={"RemoveVertices": {"ok"}, "RemoveCells": {"ok"}, "AssignValues": {"ok"}, "RemoveAndReopen": {"ok"}, "MaskedCopy": {"ok"}},
     )
